@@ -30,7 +30,7 @@ NEEDED_FEATURES = [
     "filters", "mixed_discrete", "two_cont_choices", "two_cont_states", "stochastic",
     "stoch_multi_dep", "period_transition", "period_utility", "period_filter",
     "period_constraint", "leave_above", "leave_below", "log_grid", "aux_params",
-    "constraint_params", "poison", "excluded_states", "two_stochastic", "horizon_ge_11",
+    "constraint_params", "poison", "excluded_states", "two_stochastic", "horizon_ge_11", "axis_ge_150",
 ]
 
 
@@ -48,6 +48,14 @@ def plan(tier, seed):
                       "cfg_over": {"min_T": 11, "max_T": 13, "max_cells": 600, "max_states": 2, "max_choices": 2, "max_cont_state_pts": 4, "max_cont_choice_pts": 4},
                       "force": {"period_utility": True, "two_stochastic": False, "two_cont_states": False, "two_cont_choices": False},
                       "jit_false": False, "env": {"VERIF_X64": "1"}})
+    # long axes (150-1200 grid points on a continuous state): coordinates, clipping and the
+    # interpolation corners far away from the small index range the other cases live in
+    for i in range(10 if tier == "quick" else 150):
+        cases.append({"kind": "generic", "index": i, "seed": [seed, 5, i], "cfg": "quick", "long_axis": True,
+                      "cfg_over": {"min_cont_state_pts": 150, "max_cont_state_pts": 1200, "max_cont_choice_pts": 40,
+                                   "max_cells": 600000, "max_T": 3, "max_states": 2, "max_choices": 2},
+                      "force": {"two_cont_states": False, "two_stochastic": False},
+                      "jit_false": i % 5 == 0, "env": {"VERIF_X64": "1"}})
     m = 12 if tier == "quick" else 120
     for i in range(m):
         cases.append({"kind": "no_choice_last", "index": i, "seed": [seed, 2, i], "cfg": cfg,
@@ -158,6 +166,8 @@ def run_case(case):
     refsols = [x for x in refsols if x[2]]
 
     # ------------------------------------------------------------ real code
+    if case.get("index", 1) % 6 == 0 and case["kind"] == "generic":
+        pipeline.run_sibling(desc, solve=True, counters=cnt)
     try:
         model = dsl.build_lcm_model(desc)
         f, _ = pipeline.get_lcm_function(model, "solve", jit=True)
@@ -270,6 +280,7 @@ def run_case(case):
     res["features"]["kind_" + case["kind"]] = True
     res["features"]["x64_off"] = not bootstrap.X64
     res["features"]["horizon_ge_11"] = ref.T >= 11
+    res["features"]["axis_ge_150"] = any(sp["n"] >= 150 for _, sp in desc["states"])
     res["sig"] = f"{sig}#{pipeline.param_hash(p1)}"
     res["nontrivial"] = bool(nontrivial)
     if res["violations"]:
